@@ -2820,12 +2820,13 @@ BOOST_PP_REPEAT(BOOST_PP_ADD(BOOST_MSM_VISITOR_ARG_SIZE,1), MSM_VISITOR_ARGS_EXE
      {
         // by default we activate the history/init states, can be overwritten by direct_event_start_helper
         region_entry_exit_helper< ::boost::mpl::int_<0> >::do_entry(this,incomingEvent);
-        // block immediate handling of events
-        m_event_processing = true;
-        // if the event is generating a direct entry/fork, set the current state(s) to the direct state(s)
-        direct_event_start_helper(this)(incomingEvent,fsm);
+        {
+            // block immediate handling of events
+            event_processing_guard guard(m_event_processing);
+            // if the event is generating a direct entry/fork, set the current state(s) to the direct state(s)
+            direct_event_start_helper(this)(incomingEvent,fsm);
+        }
         // handle messages which were generated and blocked in the init calls
-        m_event_processing = false;
         // look for deferred events waiting
         handle_defer_helper<library_sm> defer_helper(m_deferred_events_queue);
         defer_helper.do_handle_deferred(true);
